@@ -121,7 +121,7 @@ def compare(got, exp, F, name, out, hyps=()):
         if (got.mask is None) != (exp.mask is None):
             out.append(Clause(name, "undecided", "", "selection on one side only"))
             return
-        idx = [T.fresh("q") for _ in exp.shape]
+        idx = [ZERO if A.is_one(d) else T.fresh("q") for d in exp.shape]
         if exp.dtype == "bool" or got.dtype == "bool":
             g, e = C(got.fn(*idx)), C(exp.fn(*idx))
             ok = g == e
@@ -245,7 +245,11 @@ def structural_defs(value, acc=None, guards=(), depth=0):
     if not isinstance(value, Poly) or depth > 12:
         return acc
     for m, _c in value.terms:
+        g0 = guards
+        # an indicator factor guards the rest of its monomial: [c] * X is only evaluated where c holds
+        inds = tuple(a.args[0] for a, p in m if a.kind == "ind")
         for a, p in m:
+            guards = g0 + tuple(c for c in inds if not (a.kind == "ind" and a.args[0] is c))
             k = a.kind
             if p < 0:
                 acc.append(("nonzero", a.args[0] if k == "rcp" else Poly.atom(a), guards))
